@@ -8,6 +8,10 @@
 #include <string.h>
 #include <unistd.h>
 #include <sys/stat.h>
+#include <sys/mount.h>
+#include <sys/ioctl.h>
+#include <sched.h>
+#include <fcntl.h>
 #include "snoopy.h"
 #include "init-deinit.h"
 #include "inputdatastorage.h"
@@ -31,7 +35,9 @@ int main(int argc, char **argv) {
     static char line[1 << 16];
     (void)argc; (void)argv;
     strcpy(verif_cfgpath, "/nonexistent/verif/snoopy.ini");
-    while (fgets(line, sizeof line, stdin)) {
+    FILE *script = fdopen(dup(0), "r");      /* commands may close or replace descriptor 0 (failstate, ttylong): the script has its own */
+    if (!script) return 3;
+    while (fgets(line, sizeof line, script)) {
         size_t n = strlen(line); while (n && line[n - 1] == '\n') line[--n] = 0;
         char *tok[4100]; int nt = 0; char *sv = NULL; for (char *t = strtok_r(line, " ", &sv); t && nt < 4100; t = strtok_r(NULL, " ", &sv)) tok[nt++] = t;
         if (!nt) continue;
@@ -51,6 +57,16 @@ int main(int argc, char **argv) {
             else { for (int i = 3; i < nt; i++) { cnt++; if (!one(tok[1], arg, (size_t)atol(tok[i]), &L)) { ok = 0; badsize = (size_t)atol(tok[i]); break; } if (L > Lmax) Lmax = L; } }
             printf("%s %s %s sizes=%ld maxlen=%ld terminated=%d badsize=%zu\n", tok[0], tok[1], tok[2], cnt, Lmax, ok, badsize);
             free(arg);
+        } else if (!strcmp(tok[0], "ttylong")) {
+            /* stdin becomes a terminal whose device path is longer than the smallest result buffers (300 bytes and more): a pty of a private devpts
+               instance mounted deep below the work directory (private mount namespace) */
+            char d[4096]; if (!getcwd(d, sizeof d - 400)) return 3; size_t l = strlen(d);
+            while (l < 330) { strcat(d, "/devpts-instance-mounted-at-a-long-path-0123456789"); mkdir(d, 0755); l = strlen(d); }
+            if (unshare(CLONE_NEWNS) || mount("none", "/", NULL, MS_REC | MS_PRIVATE, NULL) || mount("devpts", d, "devpts", 0, "newinstance,ptmxmode=0666,mode=0620")) { perror("private devpts"); return 3; }
+            char pm[4200], sp[4300]; snprintf(pm, sizeof pm, "%s/ptmx", d); int m = open(pm, O_RDWR | O_NOCTTY); if (m < 0) { perror(pm); return 3; }
+            int unlock = 0, num = -1; ioctl(m, TIOCSPTLCK, &unlock); ioctl(m, TIOCGPTN, &num); snprintf(sp, sizeof sp, "%s/%d", d, num);
+            int sl = open(sp, O_RDWR | O_NOCTTY); if (sl < 0) { perror(sp); return 3; } dup2(sl, 0); close(sl);
+            char tn[4400]; printf("ttylong ok len=%zu ttyname_r=%d\n", strlen(sp), ttyname_r(0, tn, sizeof tn));
         } else if (!strcmp(tok[0], "failstate")) {
             /* a process state in which data sources FAIL or have nothing to say: working directory removed, no stdin, empty environment */
             char d[64]; snprintf(d, sizeof d, "gone-%d", (int)getpid()); mkdir(d, 0755); if (chdir(d) || rmdir(d) ? 0 : 1) {} { char up[80]; snprintf(up, sizeof up, "../%s", d); rmdir(up); }
